@@ -328,6 +328,17 @@ func driveVSSWire(rc *RunCtx) {
 			rc.Fail("vss-commitments", "dealer %s published %d commitment points for threshold %d", dealer.Name, len(vs), t)
 			return
 		}
+		// the coefficients of the dealer's polynomial are independent uniform values: two equal commitment
+		// points (probability about 1/q for an honest dealer) mean two equal coefficients, and then fewer
+		// than t+1 shares carry more information about the secret than they may
+		for a := 0; a < len(vs); a++ {
+			for b := a + 1; b < len(vs); b++ {
+				if PtEq(vs[a], vs[b]) {
+					rc.Fail("threshold", "dealer %s: commitment points %d and %d are equal (equal polynomial coefficients): fewer than t+1 shares determine more than they may", dealer.Name, a, b)
+					return
+				}
+			}
+		}
 		if pr.Curve == "ed" {
 			// the library clears the cofactor of received commitments; do the same on the harness side
 			for i := range vs {
